@@ -89,6 +89,18 @@ class TU:
         q = q[len('struct '):] if q.startswith('struct ') else q
         return q if q in self.raw_records else None
 
+    def is_fnptr(self, q):
+        q = clean(q)
+        if '(*)' in q or re.search(r'\(\s*\*\s*\)\s*\(', q):
+            return True
+        if q.endswith('*'):
+            pointee = clean(q[:-1])
+            for _ in range(8):
+                if pointee in self.typedefs:
+                    pointee = clean(self.typedefs[pointee])
+            return '(' in pointee and '*' not in pointee.split('(')[0][-2:]
+        return False
+
     def alignof(self, q):
         q = self.resolve(q)
         m = re.fullmatch(r'(.*)\[(\d+)\]', q)
@@ -246,6 +258,9 @@ class Fn:
         self.externs, self.nsite, self.extra_params, self.extra_outs = set(externs), {}, [], []
         self.tables = {}
         self.tags, self.allfields, self.local_records = {}, {}, {}
+        self.aggtypes = {}
+        self.fnptrs = set()
+        self.fnalias_map = {}
         self.trace = []
         self.lets, self.n = [], 0
         self.uses_mem = False
@@ -293,7 +308,7 @@ class Fn:
                 if '@' + nm in env:
                     return ('var', '@' + nm)                 # a file-scope integer / pointer object
                 if '@&' + nm in env:
-                    return ('agg', env['@&' + nm], self.tu.globals[nm])   # a file-scope aggregate kept in memory
+                    return ('agg', env['@&' + nm], self.aggtypes.get(nm) or self.tu.globals[nm])   # an aggregate kept in memory
                 if nm in self.gstructs:
                     return ('gagg', nm, self.tu.globals[nm])  # a file-scope structure whose scalar members are variables
                 raise Unsupported('variable outside the function: ' + nm)
@@ -562,6 +577,15 @@ class Fn:
             return f'(if {self.ev(c, env)} != {lit(0, cw)} then {self.ev(a, env)} else {self.ev(b, env)})'
         if k == 'AtomicExpr':
             return self.atomic(n, env)
+        if k == 'OffsetOfExpr':
+            off = n.get('range', {}).get('begin', {}).get('offset')
+            m = re.match(rb'__builtin_offsetof\s*\(\s*([A-Za-z_][A-Za-z_0-9 ]*?)\s*,\s*([A-Za-z_][A-Za-z_0-9]*)\s*\)', self.tu.text[off:off + 200]) if off is not None else None
+            if not m:
+                raise Unsupported('offsetof whose operands the translator cannot read')
+            rn = tu.record_name(m.group(1).decode())
+            if rn is None or m.group(2).decode() not in tu.layout(rn)[1]:
+                raise Unsupported('offsetof of an unknown structure member')
+            return lit(tu.layout(rn)[1][m.group(2).decode()][0], tu.vtype(n).w)
         if k == 'VAArgExpr':
             # the next variable argument is an input of the definition (`va_<k>`, numbered in execution order)
             self.nsite['va'] = self.nsite.get('va', 0) + 1
@@ -698,6 +722,11 @@ class Fn:
             raise Unsupported('indirect call')
         fname = callee['referencedDecl']['name']
         args = n['inner'][1:]
+        if callee['referencedDecl'].get('kind') == 'ParmVarDecl':
+            real = self.fnalias_map.get(fname, fname)
+            if real in self.fnptrs:
+                return self.extern_call(real, n, args, env)
+            raise Unsupported('indirect call')
         if fname in ('atomic_signal_fence', 'atomic_thread_fence', '__atomic_signal_fence', '__atomic_thread_fence',
                      '__c11_atomic_signal_fence', '__c11_atomic_thread_fence'):
             return '()'                    # sequentially a fence does nothing
@@ -778,7 +807,7 @@ class Fn:
         params = [c for c in fdecl['inner'] if c['kind'] == 'ParmVarDecl']
         if len(params) != len(args):
             raise Unsupported('argument count of ' + fname)
-        binds, back, records, outs_alias = [], [], [], []
+        binds, back, records, outs_alias, fnalias = [], [], [], [], []
         for p, a in zip(params, args):
             q = p['type'].get('desugaredQualType', p['type']['qualType'])
             rec = self.tu.record_of(q)
@@ -800,6 +829,12 @@ class Fn:
                         and tgt['referencedDecl']['name'] not in self.local_records:
                     # `&x` of a caller's scalar / pointer variable handed to an out-parameter: the callee's `*param` IS that variable
                     outs_alias.append((p['name'], tgt['referencedDecl']['name']))
+                elif self.tu.is_fnptr(q):
+                    sa2 = strip(a)
+                    nm2 = sa2.get('referencedDecl', {}).get('name')
+                    if sa2.get('kind') != 'DeclRefExpr' or nm2 not in self.fnptrs:
+                        raise Unsupported('function pointer argument of ' + fname + ' that is not a function pointer parameter of the caller')
+                    fnalias.append((p['name'], nm2))
                 else:
                     binds.append((p, self.bind(p['name'], conv(self.ev(a, env), self.tu.vtype(a), self.tu.vtype(p)))))
         dd = self.dead(env)
@@ -810,6 +845,9 @@ class Fn:
         saved = (self.ftype, self.ptype, self.partial, self.in_loop, getattr(self, 'stack', ()))
         self.ftype, self.ptype, self.partial, self.in_loop = dict(self.ftype), dict(self.ptype), dict(self.partial), 0
         self.stack = saved[4] + (fname,)
+        saved_alias = dict(self.fnalias_map)
+        for pn_, nm_ in fnalias:
+            self.fnalias_map[pn_] = saved_alias.get(nm_, nm_)
         for p, v in binds:
             cenv[p['name']] = v
             self.ptype[p['name']] = p['type'].get('desugaredQualType', p['type']['qualType'])
@@ -826,6 +864,7 @@ class Fn:
         body = [c for c in fdecl['inner'] if c['kind'] == 'CompoundStmt'][0]
         self.ex(body, cenv)
         self.ftype, self.ptype, self.partial, self.in_loop, self.stack = saved
+        self.fnalias_map = saved_alias
         self.depth -= 1
         for ck, pk in back:
             env[ck] = cenv[pk]
@@ -1008,6 +1047,21 @@ class Fn:
                     # an aggregate local: only its address may be used (handed to external functions)
                     self.local_records[d['name']] = dq
                     continue
+                if self.tu.record_name(dq) is not None and self.tu.record_name(dq) in self.tu.inmem:
+                    # an aggregate local of a structure kept in memory: its (stack) address is an input of the definition
+                    if [c for c in d.get('inner', []) if not c['kind'].endswith('Comment')]:
+                        raise Unsupported('initialised aggregate local ' + d['name'])
+                    key = '@&' + d['name']
+                    if key not in env:
+                        pn = f'{d["name"]}_addr'
+                        k_ = 1
+                        while any(pn == x for x, _ in self.extra_params):
+                            k_ += 1
+                            pn = f'{d["name"]}_addr{k_}'
+                        self.extra_params.append((pn, PTR))
+                        env[key] = pn
+                        self.aggtypes[d['name']] = dq
+                    continue
                 self.tu.vtype(d)
                 init = [c for c in d.get('inner', []) if not c['kind'].endswith('Comment')]
                 if init:
@@ -1120,6 +1174,13 @@ class Fn:
             if '__va_list_tag' in q:
                 continue
             self.ptype[p['name']] = q
+            if tu.is_fnptr(q):
+                # a function pointer: an opaque 64-bit value; a call through it is a call of the environment named after the parameter
+                params.append((p['name'], PTR))
+                env[p['name']] = p['name']
+                self.fnptrs.add(p['name'])
+                sig['params'].append(('scalar', p['name'], None))
+                continue
             rec = tu.record_of(q)
             pt = tu.vtype(p)
             if rec is not None:
